@@ -645,6 +645,9 @@ def check_family(ctx, fam, rng, quick, budget):
         if t_ok is not None:
             ctx.pending.append(("iter", {**case, "impl": idents if idents != "err" else list(oc[1])}, t_ok, t_def, fid))
 
+    # ---- interleaved / nested / re-entrant iteration: every iteration is independent of every other one
+    reentrant_checks(rep, fam, base, parent, plain_ok=(oc[0] == "ok"))
+
     # ---- concatenation of the pieces of a partition, in every grouping
     cls = fam.cls()
     groupings = [("slices", cuts) for cuts in compositions(n)]
@@ -762,6 +765,144 @@ def check_family(ctx, fam, rng, quick, budget):
             rep.case(ckey, sample=sample, kind=fam.kind + "/analysis")
             rep.violation(f"{fam.kind} subset {how} (ids {ids}, labels {labels}): {name} differs from the freshly built twin "
                           f"({describe(o_sub)} vs {describe(o_twin)})", case)
+
+
+_STOP = object()
+
+
+def reentrant_method(fam):
+    """an analysis method that iterates over the dataset internally (where the class has one)"""
+    k = fam.kind
+    if k == "dense":
+        return "smooth-PS", lambda d: d.smooth(method="PS", penalty=1.0, n_segments=4, degree=2)
+    if k == "irregular":
+        return "noise_variance", lambda d: d.noise_variance(order=2)
+    return "norm", lambda d: d.norm()
+
+
+def reentrant_checks(rep, fam, base, parent, plain_ok):
+    """What a SOLO iteration yields (judged against the model above) must also be what every iteration yields
+    when several run at the same time: zip(fd, fd), nested loops, itertools.product, two iterators advanced
+    alternately, and an outer loop whose body calls a method that iterates over `fd` internally.
+    Items are pulled with explicit next() at most n times, so that datasets whose iteration cannot terminate
+    properly (open finding F9f) are still checked; `for` syntax is used in addition when a solo iteration works."""
+    n = fam.n
+
+    def ident_seq(items):
+        out = []
+        for o in items:
+            i = fam.identify(o)
+            out.append(None if i is None else (tuple(map(tuple, i)) if not is_multi(fam) else tuple(tuple(map(tuple, c)) for c in i)))
+        return out
+
+    def pulls(it, k):
+        out = []
+        for _ in range(k):
+            o = next(it, _STOP)
+            if o is _STOP:
+                break
+            out.append(o)
+        return out
+
+    solo = outcome(lambda: ident_seq(pulls(iter(parent), n)))
+    if solo[0] != "ok":
+        return          # a solo iteration cannot even deliver n items: judged under iteration
+    ref = solo[1]
+    name_m, method = reentrant_method(fam)
+    ref_result = outcome(lambda: method(parent))
+
+    def scenarios():
+        sc = {}
+        a, b = iter(parent), iter(parent)
+        xa, xb = [], []
+        for _ in range(n):
+            xa += pulls(a, 1)
+            xb += pulls(b, 1)
+        sc["two iterators advanced alternately / first"] = ident_seq(xa)
+        sc["two iterators advanced alternately / second"] = ident_seq(xb)
+        outer = iter(parent)
+        visited = []
+        for k in range(n):
+            o = pulls(outer, 1)
+            if not o:
+                break
+            visited += o
+            sc[f"nested iteration / inner pass {k}"] = ident_seq(pulls(iter(parent), n))
+        sc["nested iteration / outer"] = ident_seq(visited)
+        outer = iter(parent)
+        visited, results = [], []
+        for k in range(n):
+            o = pulls(outer, 1)
+            if not o:
+                break
+            results.append(outcome(lambda: method(parent)))
+            visited += o
+        sc[f"outer loop calling {name_m}() in its body"] = ident_seq(visited)
+        sc["_results"] = results
+        if plain_ok:
+            pairs = list(itertools.islice(zip(parent, parent), n + 2))
+            sc["zip(fd, fd) / first"] = ident_seq([p[0] for p in pairs])
+            sc["zip(fd, fd) / second"] = ident_seq([p[1] for p in pairs])
+            visited = []
+            count = 0
+            for x_ in parent:
+                visited.append(x_)
+                inner = []
+                for y_ in parent:
+                    inner.append(y_)
+                    count += 1
+                    if count > (n + 1) * (n + 1):
+                        break
+                sc[f"for a in fd: for b in fd / inner pass {len(visited) - 1}"] = ident_seq(inner)
+                if len(visited) > n + 1:
+                    break
+            sc["for a in fd: for b in fd / outer"] = ident_seq(visited)
+            prod = list(itertools.islice(itertools.product(parent, parent), n * n + 2))
+            sc["itertools.product(fd, fd) / first"] = ident_seq([p[0] for p in prod[::max(n, 1)]]) if len(prod) == n * n else ["wrong length"]
+            sc["itertools.product(fd, fd) / second"] = ident_seq([p[1] for p in prod[:n]])
+            visited = []
+            for x_ in parent:
+                outcome(lambda: method(parent))
+                visited.append(x_)
+                if len(visited) > n + 1:
+                    break
+            sc[f"for obs in fd: fd.{name_m}()"] = ident_seq(visited)
+        return sc
+
+    oc = outcome(scenarios)
+    if oc[0] != "ok":
+        rep.case((fam.kind, n, "reentrant"), kind=fam.kind + "/reentrant-iteration")
+        rep.violation(f"{fam.kind} n_obs={n}: interleaved / nested iteration raised {oc[1]} although a solo iteration delivers "
+                      f"its {n} items", {**base, "op": "reentrant-iteration"})
+        return
+    sc = oc[1]
+    results = sc.pop("_results")
+    reported = 0
+    for what, seq in sc.items():
+        rep.case((fam.kind, n, "reentrant", what), nontrivial=n >= 2, kind=fam.kind + "/reentrant-iteration",
+                 sample={**base, "op": "reentrant-iteration", "scenario": what})
+        if seq != ref:
+            rep.disagreements_checked += 1
+            reported += 1
+            if reported > 3:        # at most three replay files per dataset
+                continue
+            rep.violation(f"{fam.kind} n_obs={n}: {what}: yields {len(seq)} item(s) {[ids_of_ident(fam, i) for i in seq]} where a solo "
+                          f"iteration yields the {n} observations {[ids_of_ident(fam, i) for i in ref]} (iterations are not "
+                          f"independent of each other)", {**base, "op": "reentrant-iteration", "scenario": what})
+    for k, r in enumerate(results):
+        if not same_outcome(r, ref_result):
+            rep.disagreements_checked += 1
+            rep.violation(f"{fam.kind} n_obs={n}: {name_m}() called inside `for obs in fd` (pass {k}) differs from the same call "
+                          f"outside the loop ({describe(r)} vs {describe(ref_result)})",
+                          {**base, "op": "reentrant-iteration", "scenario": f"{name_m} inside loop"})
+            break
+
+
+def ids_of_ident(fam, ident):
+    if ident is None or isinstance(ident, str):
+        return ident
+    d = ident[0] if is_multi(fam) else ident
+    return [i for _, i in d]
 
 
 def describe(oc):
@@ -984,7 +1125,9 @@ RULE = ("dense / irregular / basis / multivariate (dense+dense, dense+irregular,
         "n_obs 1..6 and pairwise distinct curves; every integer index in -n-2..n+1, slices with start/stop in {None} U -n-1..n+1 and "
         "step in {None,1,2,-1,-2,0(,3,-3)}, index arrays of length 0..3 with entries in -n-1..n (sampled in the quick tier), iteration; "
         "every grouping of 0..n into consecutive slices (+ groupings with an empty piece, integer items, iteration items, and the "
-        "non-partitions a0,a1,a0 / a1,a0 / a0,a0); analysis operations on the distinct subsets vs a freshly built twin. A case is one "
+        "non-partitions a0,a1,a0 / a1,a0 / a0,a0); interleaved / nested / re-entrant iteration (zip, nested loops, product, two iterators "
+        "advanced alternately, a method that iterates internally called inside a loop) vs a solo iteration; analysis operations on the "
+        "distinct subsets vs a freshly built twin. A case is one "
         "(dataset, index | grouping | subset x operation); non-trivial unless both sides refuse with the same exception.")
 ASSUME = ["curves are identified by bit-for-bit equality of sampling points and values with a parent curve (parents have pairwise distinct curves)",
           "analysis results on a subset and on its freshly built twin are compared with tolerance 1e-9*scale + 1e-12 (same arithmetic on the "
